@@ -75,32 +75,27 @@ def _run_one(args: tuple[str, str, str, str, str, str]) -> tuple[str, str, str, 
     return (v.pid, v.name, "MISSED", "")
 
 
-def _generic_twins(pids: list[str]) -> list[tuple[str, str, str, str]]:
-    """Formatting twin: every module re-emitted by ast.unparse (no comments, different line numbers and layout)."""
+def _generic_twin(args: tuple[str, list[str]]) -> list[tuple[str, str, str, str]]:
+    """Whole-tree twins (sa/twins.py): reformatting, statement shifting, alpha-renaming of locals."""
+    kind, pids = args
     from . import report
     from .rules import REGISTRY
+    from .twins import GENERIC
 
-    root = os.path.join(default_root(), "src", "schemathesis")
-    overlay = {}
-    for dirpath, _d, files in os.walk(root):
-        for fn in files:
-            if fn.endswith(".py"):
-                p = os.path.join(dirpath, fn)
-                src = open(p, encoding="utf-8").read()
-                try:
-                    overlay[os.path.relpath(p, root)] = ast.unparse(ast.parse(src)) + "\n"
-                except SyntaxError:
-                    pass
-    project = Project(overlay=overlay)
+    project = Project(overlay=GENERIC[kind]())
     out = []
     known = report.load_known()
     for pid in pids:
-        chk = report.run_rules(pid, REGISTRY[pid]("quick"), project, "quick", quiet=True)
+        try:
+            chk = report.run_rules(pid, REGISTRY[pid]("quick"), project, "quick", quiet=True)
+        except Exception as exc:  # noqa: BLE001
+            out.append((pid, f"twin:{kind}", "undecided", f"analysis error {exc!r}"[:120]))
+            continue
         viol = [o for o in chk.obligations if o.status == report.VIOLATION and report.is_known(pid, o, known) is None]
         und = [o for o in chk.obligations if o.status == report.UNDECIDED]
         status = "FALSE-ALARM" if viol else ("undecided" if und else "ok")
-        detail = (f"{viol[0].rule} {viol[0].construct[:70]}" if viol else (f"{und[0].rule} {und[0].construct[:70]}" if und else "silent"))
-        out.append((pid, "twin:reformat-all-modules", status, detail))
+        detail = (f"{len(viol)}x e.g. {viol[0].rule} {viol[0].construct[:70]}" if viol else (f"{len(und)}x e.g. {und[0].rule} {und[0].construct[:70]}" if und else "silent"))
+        out.append((pid, f"twin:{kind}", status, detail))
     return out
 
 
@@ -109,12 +104,16 @@ def run_all(pids: list[str] | None = None, jobs: int | None = None) -> list[tupl
     args = [(v.pid, v.name, v.file, v.old, v.new, v.expect) for v in variants]
     jobs = jobs or min(16, os.cpu_count() or 4)
     results: list[tuple[str, str, str, str]] = []
-    if args:
-        with ProcessPoolExecutor(max_workers=jobs) as ex:
-            results = list(ex.map(_run_one, args, chunksize=2))
     from .rules import REGISTRY
+    from .twins import GENERIC
 
-    results += _generic_twins(sorted(p for p in REGISTRY if not pids or p in pids))
+    all_pids = sorted(p for p in REGISTRY if not pids or p in pids)
+    with ProcessPoolExecutor(max_workers=jobs) as ex:
+        gen = [ex.submit(_generic_twin, (kind, [pid])) for kind in GENERIC for pid in all_pids]
+        if args:
+            results = list(ex.map(_run_one, args, chunksize=2))
+        for f in gen:
+            results += f.result()
     return results
 
 
